@@ -16,4 +16,5 @@ def run(ctx):
     def judge(sess, r):
         return SS.judge(sess, r) + inv_gen.judge_inv(sess, r)
     gens = [('inv', dict(fn=lambda rng: inv_gen.gen_inv_session(rng), share=1))]
-    api_check.run_api_check(ctx, gens, None, n_quick=150, n_thorough=2500, judge=judge)
+    api_check.run_api_check(ctx, gens, None, n_quick=150, n_thorough=2500, judge=judge,
+                            gens_translators=('consts', 'scs'))
